@@ -188,6 +188,13 @@ local function _lua_set_python_loader(fn)
         error("Python loader already set")
     end
     _python_loader = fn
+    -- All Python objects handed to Lua share one metatable (__call, __index,
+    -- __newindex, __gc).  Sandboxed code has getmetatable() and rawset(); hide
+    -- the table so that it cannot redirect the calls the host makes to Python.
+    local mt = getmetatable(fn)
+    if type(mt) == "table" then
+        mt.__metatable = false
+    end
 end
 
 -- Maximum allowed execution time in Lua code (seconds)
